@@ -1,13 +1,94 @@
 package props
 
-import "gpverif/core"
+import (
+	"go/token"
 
-func init() { register("C01", c01) }
+	"gpverif/core"
+)
+
+func init() {
+	register("C01", c01)
+	register("C03", c03)
+	register("C04", c04)
+	register("C05", c05)
+	register("C30", c30)
+}
 
 func c01(r *core.Run) {
-	r.Expl = "C01 (blocks read back as written): decides structural necessary conditions only — the write-offset accounting and commit protocol of GPFile.writeBlock on every control-flow path; resume position on open; agreement of the metadata writer/reader layouts; field coverage of the summaries; the read path's length check and decoder choice. Does not decide that arbitrary byte contents survive (compression libraries trusted) nor equality of numeric totals."
-	r.Floor = 10
+	r.Expl = "C01 (blocks read back as written): decides structural necessary conditions only — (1) the write-offset accounting and commit protocol of GPFile.writeBlock on every control-flow path (rollback by seek+reset between two emitting attempts, flush before commit, recorded Len/offset advance = count of the last emitting call, recorded encoder type = emitting encoder, RawLen = input length, duplicate test before AddBlock); (2) GPFile.open seeks to the committed offset before creating the writer, ModeWrite has neither O_TRUNC nor O_APPEND; (3) GPDir.Marshal and GPDir.Unmarshal agree on offset, width, role, stride and loop structure of every stored field, and the size constants equal the sizes implied by the code; (4) WriteBlocks touches the summaries exactly once after all columns succeeded and the Add methods cover every field; (5) ReadBlockAtIndex returns data only after the length check, with the decoder chosen from the block's type. NOT decided: that arbitrary byte contents survive (compression libraries trusted), behaviour over histories of sessions, numeric equality of totals."
+	r.Floor = 60
 	p := r.Prog("cgo")
-	r.Rules = append(r.Rules, "writeBlock-trace: path-enumerating automaton over emit/seek/reset/flush/AddBlock/offset-update events")
+	r.Rules = append(r.Rules, "writeBlock-trace: path-enumerating automaton over emit/seek/reset/flush/AddBlock/offset-update events",
+		"open-resume", "codec-layout: serialisation signature of Marshal vs Unmarshal + size constants", "decode-guards", "narrowing-guarded",
+		"writeblocks-protocol", "read-path", "field-coverage")
 	ruleWriteBlockTrace(r, p, nil)
+	ruleOpenResume(r, p)
+	ruleCodecLayout(r, p)
+	ruleWriteBlocksSummaries(r, p)
+	ruleReadPath(r, p)
+	ruleAccumulate(r, p, pkgGpfile, "TrafficMetadata.Add", token.ADD_ASSIGN)
+	ruleAccumulate(r, p, pkgGpfile, "Stats.Add", token.ADD_ASSIGN)
+	ruleAccumulate(r, p, "pkg/types", "Counters.Add", token.ADD_ASSIGN)
+}
+
+func c03(r *core.Run) {
+	r.Expl = "C03 (day metadata survives reopening): decides (1) every narrowing conversion stored by GPDir.Marshal is dominated by range guards on every side its source type can exceed (signed timestamp delta: upper and lower); (2) GPDir.Unmarshal's two size guards exist, use constants that cover the bytes the decoder consumes (derived from the code), reject with an error and dominate every access and allocation; writer/reader layout agreement; (3) the duplicate-timestamp test dominates AddBlock in writeBlock; (4) GPDir.Open propagates Unmarshal errors. NOT decided: equality of re-read histories as values, rejection of every malformed byte string, >4GiB blocks."
+	r.Floor = 45
+	p := r.Prog("cgo")
+	r.Rules = append(r.Rules, "codec-layout", "decode-guards", "narrowing-guarded", "writeBlock-trace(duplicate-check)", "storage-errors(Open)")
+	ruleCodecLayout(r, p)
+	ruleWriteBlockTrace(r, p, map[string]bool{"duplicate-check-dominates-add": true, "no-commit-on-error-path": true, "success-implies-commit": true})
+	if f := r.MustFunc("storage-errors", pkgGpfile, "GPDir.Open"); f != nil {
+		for _, c := range core.Calls(f.Decl.Body, false) {
+			if core.CallName(f.Info(), c) == pkgGpfile+".GPDir.Unmarshal" {
+				use, why := core.ErrDisposition(f.Info(), f.Decl.Body, c)
+				r.Check("storage-errors", "GPDir.Open:Unmarshal-error-propagates", p.Rel(c.Pos()), use == core.ErrChecked || use == core.ErrReturned, why)
+			}
+		}
+	}
+}
+
+func commitProtocol(r *core.Run, p *core.Prog) {
+	ruleMetaAtomic(r, p)
+	ruleDirClose(r, p)
+	ruleDBWriter(r, p)
+	ruleWriteBlocksSummaries(r, p)
+	ruleOpenResume(r, p)
+}
+
+func c04(r *core.Run) {
+	r.Expl = "C04 (crash during write-out): decides only that the protocol the recovery argument relies on is the one in the code — metadata published by create-temp(in the day directory) → marshal → close → rename onto the metadata path → directory rename, each step's error aborting; no other function writes the metadata path; GPDir.Close commits only if all column closes succeeded; DBWriter commits only after every WriteBlocks succeeded; summaries updated after all columns; committed bytes are never rewritten (only seek target in write mode is the committed offset, no truncate; ModeWrite constant); write ownership (who may modify files / create write-mode directories). NOT decided: the state of the files at each system-call boundary, partial writes, recovery by later write-outs — these need crash-point enumeration."
+	r.Floor = 40
+	p := r.Prog("cgo")
+	r.Rules = append(r.Rules, "commit-protocol: per-path event order (create-temp, marshal, close, rename) with error dispositions", "write-ownership", "writeBlock-trace", "open-resume")
+	commitProtocol(r, p)
+	ruleWriteBlockTrace(r, p, map[string]bool{"rollback-between-emits": true, "flush-after-last-emit": true, "no-foreign-seek-or-truncate": true, "block-offset-is-committed-offset": true, "offset-advances-by-last-emit-count": true, "no-commit-on-error-path": true})
+	ruleWriteOwnership(r, p)
+	ruleCommittedOffsetRoles(r, p)
+}
+
+func c05(r *core.Run) {
+	r.Expl = "C05 (failed I/O never damages committed data): decides the error discipline and commit protocol of the write path — no error returned by a storage call is dropped in gpfile and in the goDB writer (every call site classified: returned / tested-and-leaves / deliberately soft with a frozen reason); writeBlock reaches no header update on an error path; WriteBlocks aborts on the first failing column before touching summaries; DBWriter never reaches GPDir.Close (the metadata commit) after a failed WriteBlocks; Close does not commit after a column close error; the metadata commit is temp-file + rename with every step checked. NOT decided: behaviour under each injected fault at each call, recovery after the fault clears."
+	r.Floor = 60
+	p := r.Prog("cgo")
+	r.Rules = append(r.Rules, "storage-errors: disposition of every error-returning call in gpfile + goDB writer", "commit-protocol", "writeBlock-trace", "writeblocks-protocol")
+	commitProtocol(r, p)
+	ruleWriteBlockTrace(r, p, map[string]bool{"no-commit-on-error-path": true, "compress-error-checked": true, "flush-after-last-emit": true, "rollback-between-emits": true, "success-implies-commit": true})
+	ruleStorageErrcheck(r, p, pkgGpfile)
+	for _, n := range []string{"DBWriter.Write", "DBWriter.WriteBulk"} {
+		_ = n
+	}
+}
+
+func c30(r *core.Run) {
+	r.Expl = "C30 (queries during write-outs): decides the two immutability facts the per-day snapshot argument needs — committed column bytes are never rewritten (write mode seeks only to the committed offset, no truncate, ModeWrite without O_TRUNC/O_APPEND, block offset recorded = committed offset) and the metadata file is replaced only by rename of a fully written temp file in the same directory with a single writer — plus the reader's reopen-on-missing-file recovery retrying exactly once after a successful reopen, without a loop, and the reader never handing out data whose decoded length mismatches. NOT decided: the interleavings themselves."
+	r.Floor = 20
+	p := r.Prog("cgo")
+	r.Rules = append(r.Rules, "commit-protocol", "open-resume", "reader-recovery", "writeBlock-trace", "read-path")
+	ruleMetaAtomic(r, p)
+	ruleOpenResume(r, p)
+	ruleReadRetryOnce(r, p)
+	ruleWriteBlockTrace(r, p, map[string]bool{"no-foreign-seek-or-truncate": true, "block-offset-is-committed-offset": true, "flush-after-last-emit": true})
+	ruleReadPath(r, p)
+	ruleCommittedOffsetRoles(r, p)
 }
